@@ -546,7 +546,7 @@ def explicit_rw_mixed(ast) -> bool:
 
 def run_prop(prop: str, tier: str, replay=None) -> int:
     res = Result(prop, tier)
-    st = prepare(prop, translate=translate.run_all)
+    st = prepare(prop, translate=translate.run_all, extra_modules=["RzilVerif.Props.C08Calls"] if prop == "C08" else [])
     res.proof = st
     rng = random.Random(seed() * 7331 + int(prop[1:]))
     nstates = 24 if tier == "quick" else 96
